@@ -777,6 +777,16 @@ impl Sim for MemSim {
         sc.alloc().is_guard()
     }
 
+    fn death_tags(sc: &Sc) -> String {
+        match sc {
+            Sc::Direct(d) => {
+                // the last operation kind is the one in flight when a minimised history dies
+                format!("workload=direct,last-op={}", d.ops.last().map(dop_name).unwrap_or("-"))
+            }
+            other => format!("workload={}", other.kind()),
+        }
+    }
+
     fn rule(_prop: &str) -> String {
         "Cases: (a) the scenarios of the scan, stripe, gibbs and dense simulators and (b) a direct-call generator over the safe public API (encode / encode_into incl. invalid bytes, stripe / stripe_into, configure, f32 score and score_rows_into with row sub-ranges, 8-bit scoring through to_discrete, max / argmax / threshold on f32 and u8 scores, clone; DNA and protein; explicit generic / SSE2 / AVX2 pipelines and the dispatcher under the three simulated host profiles; lengths weighted around multiples of 16 and 32, 32*32 and 32*256), each executed under guard-end, guard-start or exact-align+poison allocation, argument buffers included; plus, exhaustively, AVX2 and dispatched striping of every length. Oracle: no trap (SIGSEGV / SIGBUS), no kernel assertion on pointer alignment, and the functional oracle of the originating simulator still holds (poison turns a read of foreign memory into a wrong value). Distinct = distinct tuples (workload, allocator policy, coverage key of the originating simulator or, for direct calls, host, alphabet, longest length mod 32, number of distinct operation kinds). Non-trivial = the workload ran with allocations served by the simulated heap (every run).".to_string()
     }
